@@ -17,6 +17,7 @@ with rationals as "num/den" strings (all exactly float64).
 """
 from __future__ import annotations
 
+import itertools
 import math
 import warnings
 from fractions import Fraction
@@ -817,6 +818,25 @@ def pooled_cases(rng: Rng, n):
             yield dict(kind="mv", mode=rng.choice(["remove", "in"]), comps=[rdense(rng, nobs=nobs), a], item=same_vals, same=None, tag="absent-grid-pooled")
 
 
+def mv_structured_cases():
+    """Seed-independent: every list of up to 5 components over {A: equal to the item, B: not equal}, i.e. the
+    removed item occurring 0, 1, 2 (adjacent and non-adjacent), 3 … times in every position; dense / irregular /
+    mixed components; `remove`, `in`, `count`, `index` against Python's list semantics on the equality pattern."""
+    g = [[0, Fraction(1, 2), 1]]
+    flavours = {
+        "dense": (D(g, [[1, 2, 3], [4, 5, 6]]), D(g, [[1, 2, 3], [4, 5, 7]])),
+        "irregular": (I([(0, [[0, 1]], [1, 2]), (1, [[0, 1, 2]], [3, 4, 5])]), I([(0, [[0, 1]], [1, 2]), (1, [[0, 1, 2]], [3, 4, 6])])),
+        "mixed": (D(g, [[1, 2, 3], [4, 5, 6]]), I([(0, [[0, 1]], [1, 2]), (1, [[0, 1, 2]], [3, 4, 5])])),
+        "mixed2": (I([(0, [[0, 1]], [1, 2]), (1, [[0, 1, 2]], [3, 4, 5])]), D([[0, 1], [0, 1]], [[1, 2, 3, 4], [5, 6, 7, 8]])),
+    }
+    for fl, (A_, B_) in flavours.items():
+        for L in range(0, 6):
+            for pat in itertools.product("AB", repeat=L):
+                comps = [A_ if c == "A" else B_ for c in pat]
+                for mode in ("remove", "in", "count", "index"):
+                    yield dict(kind="mv", mode=mode, comps=comps, item=A_, same=None, tag=f"structured:{fl}:{''.join(pat) or '-'}")
+
+
 def mvop_cases(rng: Rng, n):
     """The operators a multivariate object inherits from `UserList`: `+` (concatenation through the
     constructor), `*` (repetition), `==` (list equality) — not arithmetic."""
@@ -1069,6 +1089,7 @@ def gen_cases(rng: Rng, tier):
     common.use_repo()
     k = dict(quick=1, thorough=12)[tier]
     yield from FIXED
+    yield from mv_structured_cases()
     yield from bin_cases(rng, 130 * k)
     yield from derived_cases(rng, 45 * k)
     yield from decimal_cases(rng, 30 * k)
@@ -1274,7 +1295,15 @@ def run_mv(case):
     first = plain.index(True) if True in plain else None
     ids = [id(c) for c in mfd.data]
     out = dict(plain_first=first, n=len(comps))
-    if case["mode"] == "in":
+    out["plain_count"] = sum(1 for v in plain if v)
+    if case["mode"] in ("count", "index"):
+        try:
+            r = mfd.count(item) if case["mode"] == "count" else mfd.index(item)
+            out.update(res=int(r), rtype=type(r).__name__)
+        except Exception as e:  # noqa: BLE001
+            out.update(err=_ecls(e), msg=str(e)[:120])
+        out["unchanged"] = [id(c) for c in mfd.data] == ids
+    elif case["mode"] == "in":
         try:
             r = item in mfd
             out.update(res=bool(r), rtype=type(r).__name__)
@@ -1289,6 +1318,7 @@ def run_mv(case):
             out["removed"] = gone[0] if gone else -1
             # with duplicates several k explain the same outcome: report the least
             out["after_n"] = len(after)
+            out["after_positions"] = [ids.index(i) if i in ids else -1 for i in after]
         except Exception as e:  # noqa: BLE001
             out.update(err=_ecls(e), msg=str(e)[:120])
             out["unchanged"] = [id(c) for c in mfd.data] == ids
@@ -1372,7 +1402,7 @@ def model_lines(case, impl):
                 toks += tok(d)
         return [" ".join(toks)]
     if k == "mv":
-        toks = ["in" if case["mode"] == "in" else "rem", str(len(case["comps"]))]
+        toks = [{"in": "in", "remove": "rem", "count": "cnt", "index": "idx"}[case["mode"]], str(len(case["comps"]))]
         for d in case["comps"]:
             toks += tok(d)
         item = case["comps"][case["same"]] if case.get("same") is not None else case["item"]
@@ -1381,7 +1411,7 @@ def model_lines(case, impl):
 
 
 def parse_model(case, outs):
-    if case["kind"] in ("mvop", "eqnf"):
+    if case["kind"] in ("mvop", "eqnf") or (case["kind"] == "mv" and case.get("mode") in ("count", "index")):
         return dict(raw=outs[0])
     return parse_answer(outs[0])
 
@@ -1465,6 +1495,10 @@ def compare(case, impl, model):
         if impl.get("margin", True) and impl["res"] != model["res"]:
             return [f"== impl {impl['res']} vs model {model['res']}"]
         return []
+    if k == "mv" and case["mode"] in ("count", "index"):
+        raw = model.get("raw")
+        got = ("error:" + impl["err"]) if "err" in impl else str(impl["res"])
+        return [] if got == raw else [f"{case['mode']}: impl {got} vs model {raw}"]
     if k == "mv":
         if case["mode"] == "in":
             if "err" in impl or impl.get("res") != model.get("res"):
@@ -1578,6 +1612,19 @@ def oracle(case, impl):
                                msg=f"== returned {impl['res']} but sampling points coincide and values are close is {impl['plain']} ({tag})"))
             if isinstance(impl.get("ne"), bool) and isinstance(impl.get("res"), bool) and impl["ne"] == impl["res"]:
                 vs.append(dict(clause="eq_spec", entry="__ne__", causes=["ne_not_negation"], msg="!= is not the negation of =="))
+    elif k == "mv" and case["mode"] in ("count", "index"):
+        first, cnt = impl["plain_first"], impl["plain_count"]
+        entry = case["mode"]
+        if case["mode"] == "count":
+            if "err" in impl or impl.get("res") != cnt:
+                vs.append(dict(clause="membership", entry=entry, causes=["wrong_count"], msg=f"count gave {impl.get('err', impl.get('res'))}; {cnt} components equal the item ({case.get('tag')})"))
+        else:
+            want = first if first is not None else "ValueError"
+            got = impl.get("err", impl.get("res"))
+            if got != want:
+                vs.append(dict(clause="membership", entry=entry, causes=["wrong_index"], msg=f"index gave {got}; a plain list gives {want} ({case.get('tag')})"))
+        if not impl.get("unchanged", True):
+            vs.append(dict(clause="membership", entry=entry, causes=["changed"], msg=f"{case['mode']} changed the object"))
     elif k == "mv":
         first = impl["plain_first"]
         if case["mode"] == "in":
@@ -1596,9 +1643,9 @@ def oracle(case, impl):
             elif first is None:
                 vs.append(dict(clause="membership", entry="remove", causes=["absent_removed" if impl.get("removed", -1) >= 0 else "absent_silent"],
                                msg=f"the item is in no component's == class but remove did not raise (removed position {impl.get('removed')}) ({case.get('tag')})"))
-            elif impl.get("removed") != first:
+            elif impl.get("removed") != first or impl.get("after_positions", None) not in (None, [p for p in range(impl["n"]) if p != first]):
                 vs.append(dict(clause="membership", entry="remove", causes=["wrong_component"],
-                               msg=f"remove dropped position {impl.get('removed')}, the first equal component is {first} ({case.get('tag')})"))
+                               msg=f"remove left the components at positions {impl.get('after_positions')} of {impl['n']}; a plain list removes the first equal one ({first}) and keeps the rest in order ({case.get('tag')})"))
     return vs
 
 
